@@ -175,21 +175,21 @@ theorem start_facts (env : Env) (ch : Chain) (hch : ChainOk ch) (w : World) (ban
 theorem step_call_facts (ch : Chain) (hch : ChainOk ch) (w : World) (signer : Nat) (realm : Str) (send : Coins)
     (maxDeposit : Int) (prog : List Ins) (o : Outcome)
     (h : step ch w (.call signer realm send maxDeposit prog) = .ok o) :
-    MsgFacts (ch.env send) ch.persisted signer w o := by
+    MsgFacts (ch.envFor w send) ch.persisted signer w o := by
   simp only [step] at h
   split at h
   · cases h
   · obtain ⟨bank0, h1, h2⟩ := bind_ok h
     simp only [startState, St.addTok, List.nil_append, List.length_nil, List.length_cons, List.cons_append] at h1 h2
     obtain ⟨st1, h3, h4⟩ := bind_ok h2
-    have ⟨hb, hn⟩ := sendCoins_spec w.led ⟨w.led, []⟩ bank0 (.user signer) (.pkg realm) send .msgSend (BankBal.init w.led) h1
+    have ⟨hb, hn⟩ := sendCoins_spec w.led w.restricted ⟨w.led, []⟩ bank0 (.user signer) (.pkg realm) send .msgSend (BankBal.init w.led) h1
     obtain ⟨⟨l0, hl0, hk0⟩, hs0⟩ := hn
-    have hstart := start_facts (ch.env send) ch hch w bank0
+    have hstart := start_facts (ch.envFor w send) ch hch w bank0
       { addr := .user signer, path := [], prev := none, kind := .origin }
       { addr := .pkg realm, path := realm, prev := some 0, kind := .cur }
       hb hs0 ⟨rfl, rfl⟩ ⟨rfl, Or.inl rfl⟩
     have hrun := RunFacts.steps (exec_steps _ _ _ _ _ _ _ h3) hstart
-    refine finish_facts (ch.env send) ch.persisted signer w maxDeposit bank0.log st1 o hrun ?_ h4
+    refine finish_facts (ch.envFor w send) ch.persisted signer w maxDeposit bank0.log st1 o hrun ?_ h4
     intro e he
     rw [hl0] at he
     simp only [List.append_nil] at he
@@ -199,7 +199,7 @@ theorem step_call_facts (ch : Chain) (hch : ChainOk ch) (w : World) (signer : Na
 theorem step_run_facts (ch : Chain) (hch : ChainOk ch) (w : World) (signer : Nat) (send : Coins)
     (maxDeposit : Int) (prog : List Ins) (o : Outcome)
     (h : step ch w (.run signer send maxDeposit prog) = .ok o) :
-    MsgFacts (ch.env send) ch.persisted signer w o := by
+    MsgFacts (ch.envFor w send) ch.persisted signer w o := by
   simp only [step] at h
   split at h
   · cases h
@@ -208,14 +208,14 @@ theorem step_run_facts (ch : Chain) (hch : ChainOk ch) (w : World) (signer : Nat
     · obtain ⟨bank0, h1, h2⟩ := bind_ok h
       simp only [startState, St.addTok, List.nil_append, List.length_nil, List.length_cons, List.cons_append] at h1 h2
       obtain ⟨st1, h3, h4⟩ := bind_ok h2
-      have ⟨hb, hn⟩ := sendCoins_spec w.led ⟨w.led, []⟩ bank0 (.user signer) (.user signer) send .msgSend (BankBal.init w.led) h1
+      have ⟨hb, hn⟩ := sendCoins_spec w.led w.restricted ⟨w.led, []⟩ bank0 (.user signer) (.user signer) send .msgSend (BankBal.init w.led) h1
       obtain ⟨⟨l0, hl0, hk0⟩, hs0⟩ := hn
-      have hstart := start_facts (ch.env send) ch hch w bank0
+      have hstart := start_facts (ch.envFor w send) ch hch w bank0
         { addr := .user signer, path := runPath signer, prev := none, kind := .origin }
         { addr := .user signer, path := runPath signer, prev := some 0, kind := .cur }
         hb hs0 ⟨rfl, rfl⟩ ⟨rfl, Or.inr ⟨signer, rfl, rfl⟩⟩
       have hrun := RunFacts.steps (exec_steps _ _ _ _ _ _ _ h3) hstart
-      refine finish_facts (ch.env send) ch.persisted signer w maxDeposit bank0.log st1 o hrun ?_ h4
+      refine finish_facts (ch.envFor w send) ch.persisted signer w maxDeposit bank0.log st1 o hrun ?_ h4
       intro e he
       rw [hl0] at he
       simp only [List.append_nil] at he
@@ -224,7 +224,7 @@ theorem step_run_facts (ch : Chain) (hch : ChainOk ch) (w : World) (signer : Nat
 /-- bank MsgSend -/
 theorem step_send_facts (ch : Chain) (w : World) (signer : Nat) (dst : Str) (amt : Coins) (o : Outcome)
     (h : step ch w (.bankSend signer dst amt) = .ok o) :
-    MsgFacts (ch.env []) ch.persisted signer w o := by
+    MsgFacts (ch.envFor w []) ch.persisted signer w o := by
   simp only [step] at h
   split at h
   · cases h
@@ -234,7 +234,7 @@ theorem step_send_facts (ch : Chain) (w : World) (signer : Nat) (dst : Str) (amt
       obtain ⟨bank0, h1, h2⟩ := bind_ok h
       simp only [pure, Except.pure, Except.ok.injEq] at h2
       subst h2
-      have ⟨hb, hn⟩ := sendCoins_spec w.led ⟨w.led, []⟩ bank0 (.user signer) d amt .bankSend (BankBal.init w.led) h1
+      have ⟨hb, hn⟩ := sendCoins_spec w.led w.restricted ⟨w.led, []⟩ bank0 (.user signer) d amt .bankSend (BankBal.init w.led) h1
       obtain ⟨⟨l0, hl0, hk0⟩, hs0⟩ := hn
       refine ⟨hb, ?_, ?_⟩
       · intro e he hneg
